@@ -159,6 +159,12 @@ let () =
          ftab := [];
          let (v, _) = parse_value rest in
          value_case id v
+       | "E" :: rest ->
+         (* the object after in-place changes: only its current value matters (the tail after "~"
+            is the history, for replay) *)
+         ftab := [];
+         let (v, _) = parse_value rest in
+         value_case id v
        | "W" :: k :: i :: _seed :: rest ->
          (* an interleaved history of k values; this line observes the i-th (0-based): encodings
             are values, so the model and the specification of the line are those of that value alone *)
